@@ -241,6 +241,10 @@ var c08Lexical = []string{
 	"string-length('x  y')", "string-length('x y')", "string-length('x\ty')", "string-length( 'x y' )", "concat('a','b ')", "concat('a','b')", "concat('a', 'b')", "concat('A','b')", "translate('a\tb',' ','_')", "translate('a b',' ','_')",
 	"p : f()", "p :f()", "p: f()", "p:f ()", "p : f ( 1 )", "f ()", "f( )", "$p:v + 1", "$p : v", "$p :v", "$p: v", "$ p:v", "p : f(p : a)", "count(p : *)",
 	"1/not('s')", "'a'/string-length()", "1/count(//a)", "//a/string()/string-length()", "count(//a)/string()", "true()/not(1)", "//a/name()/.", "(1)/f()", "$v/string()", "//a/string()", "//a/count(*)",
+	// a step applied to something that is not a node-set, for every axis and spelling of the step
+	"1/self::node()", "'a'/self::*", "true()/self::text()", "(1)/self::node()", "count(//a)/self::node()", "//a[3/self::node()]", "1/.", "1/..", "'a'/.", "1/child::a", "1/a", "1/*", "1/@x", "1/parent::*", "1/descendant::a",
+	"1/descendant-or-self::node()", "1//a", "1/ancestor::*", "1/ancestor-or-self::*", "1/following::*", "1/following-sibling::*", "1/preceding::*", "1/preceding-sibling::*", "1/attribute::*", "1/namespace::*", "1/text()", "1/node()",
+	"$v/self::node()", "$v/.", "concat('a','b')/self::node()", "(1 + 1)/self::*", "//a[1/self::node() = 1]", "count(1/self::node())", "string('x'/self::node())", "1/self::node()/a", "1/self::a", "1/self::p:a", "1/self::p:*",
 	". 5", "1 . 5", "1. 5", "1 .5", "1 .", ". 1 + 1", "//a[. 1]", "//nosuch[. 1]", "//nosuch[1 . 5]", "//nosuch[1. 5]", "child [ . 1 ]", "0 and . 1", "count(//nosuch[.\n1])", "1 . . 1", ".\t5", "1 .. 5", "1 ./a", "1.5 .5",
 	"", " ", "\n", "\t \n", "//a\x00", "//a\x80", "\xff", "//a<!--c-->", "//a(:c:)", "{1}", "//a{", "`a`", "//a;", "//a#", "#", "#a", "//#", "a#b", "//a\\b", "1 % 2", "1 ^ 2", "1 & 2", "1 && 2", "~1", "!1", "a?b", "//a ? //b",
 }
